@@ -79,7 +79,8 @@ Inductive iop :=
 
 Inductive ievent :=
 | IRet (code : Z)
-| ICb (h cb name : nat) (events : Z)     (* the user callback: handle, callback, file name, event bits *)
+| ICb (h cb name : nat) (events : Z) (g_active : bool)
+     (* the user callback: handle, callback, file name, event bits; ghost: is the handle active now *)
 | IRm (wd : Z)                           (* inotify_rm_watch + uv__free(w) *)
 | IClosed (h : nat).
 
@@ -167,7 +168,7 @@ Fixpoint dispatch_loop (fuel : nat) (s : ist) (wd : Z) (name : nat) (bits : Z)
                           (fun w => mkW (w_wd w) (w_base w) (w_hs w ++ [h]) rest (w_iter w))) in
               let '(s2, e2) := iapis s1 (beh cnt) in
               let '(s3, e3, n3) := dispatch_loop f s2 wd name bits beh (S cnt) in
-              (s3, ICb h (e_cb (gete s1 h)) name bits :: e2 ++ e3, n3)
+              (s3, ICb h (e_cb (gete s1 h)) name bits (e_active (gete s1 h)) :: e2 ++ e3, n3)
           end
       end
   end.
